@@ -312,7 +312,11 @@ def run(ck, prog, ctx):
                 kinds14.add("path")
             else:
                 kinds14.add("leaf")
-        ck.ob("KIND", "retained-set/sources", kinds14 == {"leaf", "path"}, "sub_ontology puts into the retained set: %s (expected: each leaf itself and the terms of its path to the root)" % (" and ".join(sorted({"leaf": "each leaf itself", "path": "the terms of the leaf's path to the root"}[k_] for k_ in kinds14)) or "nothing"), where=sub.where(ins14[0][2].line))
+        if kinds14 == {"leaf"}:
+            # no store is SEEN to come from path_to_ancestor: the path may reach the set through a helper / an adaptor this rule does not follow
+            ck.undecided("KIND", "retained-set/sources", "sub_ontology puts terms into the retained set in %d place(s); none of them is seen to take the terms of path_to_ancestor (another spelling?): not decided" % len(ins14), where=sub.where(ins14[0][2].line))
+        else:
+          ck.ob("KIND", "retained-set/sources", kinds14 == {"leaf", "path"}, "sub_ontology puts into the retained set: %s (expected: each leaf itself and the terms of its path to the root)" % (" and ".join(sorted({"leaf": "each leaf itself", "path": "the terms of the leaf's path to the root"}[k_] for k_ in kinds14)) or "nothing"), where=sub.where(ins14[0][2].line))
     # ... and none of its loops is left in the middle: a `break` where a record is merely to be skipped (`continue`) drops every later record
     from engines import for_loops as _fl14, loop_early_exits as _lee14
     for fb_ in prog.family(sub):
